@@ -634,7 +634,9 @@ def check_hypotheses(ctx, items):
     every parsed program of the tie: they must hold for parser output (the theorem then applies to it)"""
     drv = ctx.driver('drv_unparse')
     bad = []
+    bad_typed = []
     n = 0
+    ntyped = 0
     for label, tree, wc in ut.parse_items(items):
         line = ut.tree_line(tree)
         for ind in ('N', "'%20;%20;", "'%9;"):
@@ -651,10 +653,19 @@ def check_hypotheses(ctx, items):
         ctx.bump('treeok:' + rep)
         if not rep.startswith('OK T T'):
             bad.append(dict(text=label, with_comments=wc, reply=rep, what='valAll lineSafe / braceFree'))
+        rep = drv.ask('typedok indent N %s' % line)
+        ctx.bump('typedok:' + rep)
+        ntyped += 1
+        if rep != 'OK T T':
+            bad_typed.append(dict(text=label, with_comments=wc, reply=rep, what='wfVal (es5Slot) / valAll endsOK'))
     ctx.obligation('statement and hypotheses of pretty_lines_indented (checkLines, lineStartsStable, tokensEdgeB), '
                    'hypotheses of ends_with_one_newline_partial (tailSafe, tokensCleanB), other_lines_are_token_interiors '
                    '(valAll lineSafe) and level_is_structural_depth (valAll braceFree) hold on every parsed program', not bad,
                    'tie', '%d (tree, indent) pairs; first failures: %r' % (n, bad[:2]))
+    ctx.obligation('tree-level hypotheses of pretty_lines_indented_typed / pretty_text_ends_with_one_newline_typed '
+                   '(wfVal under the slot typing es5Slot, no string value ends with a line terminator) hold on every '
+                   'parsed program', not bad_typed, 'tie',
+                   '%d trees; first failures: %r' % (ntyped, bad_typed[:2]))
 
 
 def handle_diffs(ctx, diffs, cfgs):
